@@ -195,10 +195,12 @@ TEXT = {
                       "the short-skip threshold (extracted from graph.rs) and of the remaining count - the model of NodeKmerIter (after the repair of "
                       "D3) answers exactly like a cursor into the list of the node's n-K+1 k-mers; proved by a simulation invariant (cursor "
                       "position = kmer_id, cached k-mer = window at the cursor, extend_right slides the window). C18_len_upfront: a fresh "
-                      "iterator reports the exact count; C18_end_is_sticky: after the end every call answers end. The defect D3 (nth past the "
+                      "iterator reports the exact count; C18_end_is_sticky: after the end every call answers end; C18_all_nodes: draining the "
+                      "iterators of all nodes of a compressed graph visits a permutation of the table's keys (each k-mer once, pairwise distinct "
+                      "slots), from C01's partition. The defect D3 (nth past the "
                       "end: panic / foreign k-mers / endless stream) was found by this check and repaired in /repo.",
         "design_ref": "DESIGN.md section 6, C18",
-        "level_note": COMMON_NOTE + "The all-nodes/MPHF clause rests on C01 and is executed only.",
+        "level_note": COMMON_NOTE + "boomphf itself (that distinct keys get distinct slots) is outside the model.",
         "technique": "Lean 4 proof (simulation of the iterator state machine by a list cursor, induction over call sequences) + differential correspondence",
     },
     "C04": {
